@@ -2,6 +2,7 @@ import VibeProof.Model.BinCodec
 import VibeProof.Lemmas.BinCodec
 import VibeProof.Model.BinTypes
 import VibeProof.Lemmas.BinTypes
+import VibeProof.Props.C22
 /-
 C20 — loading damaged database files fails cleanly (binary format, byte level).
 
@@ -450,6 +451,132 @@ theorem C20_zero_column_data_rejected (tables : List TableDef) (name : Bytes) (n
     bind_res_ok (Reads.uN (k := 8) (by simpa using hn2) _)]
   simp only [hk, hn, and_self, if_true]
   rfl
+
+/-! ### T1 made explicit: no input makes the loader panic
+
+The model's readers have exactly one source of the `panic` outcome: the text parsers of DATE / TIME /
+TIMESTAMP / INTERVAL values (Model/Temporal.lean, where `parts[i]` out of range and `unwrap` on an
+empty string are `Fail.panic`).  That those never panic is C22's theorem (`C22_total`, imported
+read-only); everything else is closed under the reader combinators. -/
+
+/-- the hypothesis "the value parsers are total", discharged by C22 -/
+theorem map_unit_panic {α : Type} {r : Except Temporal.Fail α}
+    (h : r.map (fun _ => ()) = .error .panic) : r = .error .panic := by
+  cases r with
+  | ok v => cases h
+  | error e => cases e with
+    | err => cases h
+    | panic => rfl
+
+theorem temporalCheck_noPanic (k : TKind) (s : Bytes) : temporalCheck k s ≠ .error .panic := by
+  have h := VibeProof.C22.C22_total s
+  cases k <;> intro hp
+  · exact h.1 (map_unit_panic (r := Temporal.Date.fromStr s) hp)
+  · exact h.2.1 (map_unit_panic (r := Temporal.Time.fromStr s) hp)
+  · exact h.2.2.1 (map_unit_panic (r := Temporal.Timestamp.fromStr s) hp)
+  · exact h.2.2.2 (map_unit_panic (r := Temporal.Interval.new s) hp)
+
+theorem np_readTemporal (k : TKind) : NoPanic (readTemporal k) := by
+  unfold readTemporal
+  refine NoPanic.bind NoPanic.readString (fun s => ?_)
+  have := temporalCheck_noPanic k s
+  cases hc : temporalCheck k s with
+  | ok u => exact NoPanic.pure _
+  | error e =>
+    cases e with
+    | err => exact NoPanic.fail (by decide)
+    | panic => exact absurd hc this
+
+macro "np_step" : tactic => `(tactic| first
+  | exact NoPanic.pure _ | exact NoPanic.fail (by simp) | assumption
+  | exact NoPanic.readString | exact NoPanic.rbool | exact NoPanic.u8 | exact NoPanic.uN _
+  | exact NoPanic.iN _ | exact NoPanic.takeN _ | exact NoPanic.readEnum _ | exact np_readTemporal _
+  | apply NoPanic.optional | apply NoPanic.many | apply NoPanic.ite | apply NoPanic.bind | intro _)
+
+theorem np_readBody (t : Tag) : NoPanic (readBody t) := by
+  cases t <;> unfold readBody <;> repeat np_step
+
+/-- `read_sql_value` never panics — given (and because) its text parsers never do -/
+theorem C20_readValue_never_panics : NoPanic readValue := by
+  unfold readValue
+  refine NoPanic.bind NoPanic.u8 (fun b => ?_)
+  cases Tag.fromNat? b.toNat with
+  | none => exact NoPanic.fail (by simp)
+  | some t => exact np_readBody t
+
+theorem np_checkTypeText (t : Bytes) : NoPanic (checkTypeText t) := by
+  unfold checkTypeText
+  split
+  · exact NoPanic.fail (by simp)
+  · split
+    · exact NoPanic.pure _
+    · exact NoPanic.fail (by simp)
+
+set_option maxHeartbeats 4000000 in
+theorem np_readExprBody {rec : Reader ExInfo} (h : NoPanic rec) (k : EK) :
+    NoPanic (readExprBody rec k) := by
+  have hv := C20_readValue_never_panics
+  have ht := np_checkTypeText
+  have hc : NoPanic (readCaseWhen rec) := by unfold readCaseWhen; repeat np_step
+  have hb : NoPanic (readFrameBound rec) := by unfold readFrameBound; repeat np_step
+  have hw : NoPanic (readWindow rec) := by unfold readWindow; repeat np_step
+  cases k <;> unfold readExprBody <;> repeat (first | exact ht _ | np_step)
+
+theorem np_readExpr (fuel : Nat) : NoPanic (readExpr fuel) := by
+  induction fuel with
+  | zero => exact NoPanic.fail (by simp)
+  | succ f ih =>
+    unfold readExpr
+    refine NoPanic.bind NoPanic.u8 (fun b => ?_)
+    cases EK.fromNat? b.toNat with
+    | none => exact NoPanic.fail (by simp)
+    | some k => exact np_readExprBody ih k
+
+theorem np_counted {rd : Reader α} (h : NoPanic rd) : NoPanic (readCounted rd) :=
+  NoPanic.bind (NoPanic.uN 4) (fun k => NoPanic.many h k)
+
+theorem np_readCatalog : NoPanic readCatalog := by
+  have hcol : NoPanic readCol := by unfold readCol; repeat np_step
+  have htab : NoPanic readTableDef := by unfold readTableDef; repeat np_step
+  have hic : NoPanic readIdxCol := by unfold readIdxCol; repeat np_step
+  have hidx : NoPanic readIdxDef := by unfold readIdxDef; repeat np_step
+  have hex : NoPanic readExpression := np_readExpr _
+  have htr : NoPanic readTrig := by unfold readTrig; repeat np_step
+  unfold readCatalog
+  exact NoPanic.bind (np_counted NoPanic.readString) (fun _ =>
+    NoPanic.bind (np_counted NoPanic.readString) (fun _ =>
+    NoPanic.bind (np_counted htab) (fun _ =>
+    NoPanic.bind (np_counted hidx) (fun _ =>
+    NoPanic.bind (np_counted htr) (fun _ => NoPanic.pure _)))))
+
+theorem np_readTableData (tables : List TableDef) : NoPanic (readTableData tables) := by
+  unfold readTableData
+  refine NoPanic.bind NoPanic.readString (fun name => NoPanic.bind (NoPanic.uN 8) (fun n => ?_))
+  cases findCols tables name with
+  | none => exact NoPanic.fail (by simp)
+  | some k =>
+    exact NoPanic.ite (NoPanic.fail (by simp))
+      (NoPanic.bind (NoPanic.many (NoPanic.many C20_readValue_never_panics k) n) (fun _ => NoPanic.pure _))
+
+/-- **T1, explicit.** For every byte string the binary loader ends in `ok` or in an error value other
+    than `panic`: total given total value parsers, and C22 proves those total. -/
+theorem C20_load_never_panics (b : Bytes) : (loadFile b).res ≠ .error .panic := by
+  have hh : NoPanic readHeader := by unfold readHeader; repeat np_step
+  have : NoPanic loadFile := by
+    unfold loadFile
+    exact NoPanic.bind hh (fun _ => NoPanic.bind np_readCatalog (fun c =>
+      NoPanic.bind (NoPanic.many (np_readTableData c.tables) c.tables.length) (fun _ => NoPanic.pure _)))
+  exact this b
+
+/-- the hypothesis of the loader's totality, as a C20 statement: the four value-text parsers never
+    panic (C22's `C22_total`) -/
+theorem C20_value_parsers_never_panic (k : TKind) (s : Bytes) :
+    temporalCheck k s ≠ .error .panic := temporalCheck_noPanic k s
+
+/-- the seeded near-miss text: the model's interval parser rejects or accepts it, it does not panic -/
+theorem C20_interval_text_ending_in_TO :
+    temporalCheck .interval "1-6 YEAR TO".toUTF8.toList ≠ .error .panic :=
+  temporalCheck_noPanic _ _
 
 /-! ### column type texts read from a (possibly damaged) catalog: `parse_data_type`
 
